@@ -85,7 +85,7 @@ PROPS = {
     'C16': dict(title='numeric-to-string conversion keeps missing values missing and integers integral',
                 suites=[('converter', 300, 5000)], oracles=[('converter', 300, 5000)], oracle_props=['C16']),
     'C17': dict(title='the profiler reports exact unique/missing counts and key suitability',
-                suites=[('profiler', 60, 600, {'big_every': 60})], oracles=[('profiler', 100, 1500)], oracle_props=['C17']),
+                suites=[('profiler', 60, 600, {'n_big': 1})], oracles=[('profiler', 100, 1500)], oracle_props=['C17']),
 }
 
 
